@@ -10,6 +10,8 @@ text in front of it: attribute value (after `="`) or text."""
 from __future__ import annotations
 
 import ast
+
+from .astutil import fold_local as _fold_local
 import re
 from typing import List, Optional, Set, Tuple
 
@@ -178,7 +180,7 @@ class TaintDomain:
                 ent = e.args[1] if len(e.args) > 1 else next((k.value for k in e.keywords if k.arg == "entities"), None)
                 attr_safe = False
                 if ent is not None:
-                    m = self.ctx.prog.const(self.fi.module, ent)
+                    m = _fold_local(self.ctx.prog, self.fi, ent)
                     attr_safe = isinstance(m, dict) and '"' in m
                 return {(src, "attr" if attr_safe else "text") for (src, _s) in inner}
             if name in ("xml.sax.saxutils.quoteattr",) and e.args:
